@@ -109,14 +109,26 @@ where
         assert_eq!(self.n() as u32, res.n());
         assert_eq!(self.n() as u32, key.n());
 
-        let lvl_0: usize = GLWE::<Vec<u8>>::bytes_of_from_infos(res);
+        // Sized for inputs that have the layout of `res` (see `glwe_pack_tmp_bytes_for_input`).
+        self.glwe_pack_tmp_bytes_for_input(res, res, key)
+    }
+
+    /// Scratch space needed to pack inputs of layout `a` into `res`: the merge levels work on temporaries that
+    /// have the layout of the inputs, the final trace converts an input into `res`.
+    fn glwe_pack_tmp_bytes_for_input<R, A, K>(&self, res: &R, a: &A, key: &K) -> usize
+    where
+        R: GLWEInfos,
+        A: GLWEInfos,
+        K: GGLWEInfos,
+    {
+        let lvl_0: usize = GLWE::<Vec<u8>>::bytes_of_from_infos(a);
         let lvl_1: usize = self
             .glwe_rotate_tmp_bytes()
             .max(self.glwe_shift_tmp_bytes())
             .max(self.glwe_normalize_tmp_bytes())
-            .max(self.glwe_automorphism_tmp_bytes(res, res, key));
+            .max(self.glwe_automorphism_tmp_bytes(a, a, key));
 
-        (lvl_0 + lvl_1).max(self.glwe_trace_tmp_bytes(res, res, key))
+        (lvl_0 + lvl_1).max(self.glwe_trace_tmp_bytes(res, a, key))
     }
 
     fn glwe_pack_default<R, A, K, H>(
@@ -141,6 +153,21 @@ where
             scratch.available(),
             self.glwe_pack_tmp_bytes_default(res, &key_infos)
         );
+        // `glwe_pack_tmp_bytes(res, key)` is sized for inputs that have the layout of `res`: an input that needs
+        // more (more limbs, another radix) is checked here rather than failing deep inside a merge level.
+        for (slot, ct) in a.iter() {
+            let need: usize = self.glwe_pack_tmp_bytes_for_input(res, &**ct, &key_infos);
+            assert!(
+                scratch.available() >= need,
+                "scratch.available(): {} < {need} needed by glwe_pack for input {slot} (base2k={}, size={}), which is \
+                 larger than the layout of res (base2k={}, size={}) that glwe_pack_tmp_bytes is sized for",
+                scratch.available(),
+                ct.base2k(),
+                ct.size(),
+                res.base2k(),
+                res.size()
+            );
+        }
 
         let log_n: usize = self.log_n();
 
